@@ -440,17 +440,17 @@ func TestC09_Reader(t *testing.T) {
 	rec := evid.New("C09", "c09_reader", "rapid: reader histories (Next/Peek/Skip/ReadBinary/Release with sizes 1,100,4096,8193,20000,70000 so that earlier slices stay live across 0..5 buffer growths; io.Reader-backed and bytes-backed with power-of-two and other capacities) with an adversarial co-tenant of the shared mcache pool run after every operation (takes 4 buffers of each of 20 size classes, checks address overlap with live slices and caller memory, poisons them, returns them at once or holds them across the next operation and verifies the poison); every live slice is re-verified after each co-tenant run, before each Release and at the end; caller buffers compared with a pristine copy over their full capacity; non-trivial = a slice retained across a request > 4096, or a caller buffer with power-of-two capacity")
 	defer rec.Flush()
 	rec.Assume("GOMAXPROCS(1) and no race detector, so that sync.Pool hands a freed buffer to the next Malloc of the same class; a GC emptying the pools only reduces sensitivity")
-	runRapid(t, rec, "c09_reader_tenant", evid.Pick(2500, 8000), genReaderTenantCase, checkReaderTenant)
+	runRapid(t, rec, "c09_reader_tenant", evid.Pick(2500, 20000), genReaderTenantCase, checkReaderTenant)
 }
 
 func TestC09_Writer(t *testing.T) {
 	rec := evid.New("C09", "c09_writer", "rapid: the C05 writer histories (<= 25 ops) with the co-tenant after every operation; live regions must stay writable, disjoint and intact, WriteBinary payload buffers (power-of-two capacities in half of the cases) must stay byte-identical over their full capacity and never reach the pool; held pool buffers must keep their poison; non-trivial = unflushed size crossed 4096 (growth) in the history")
 	defer rec.Flush()
-	runRapid(t, rec, "c09_writer_tenant", evid.Pick(2500, 8000), genWriterTenantCase, checkWriterTenant)
+	runRapid(t, rec, "c09_writer_tenant", evid.Pick(2500, 20000), genWriterTenantCase, checkWriterTenant)
 }
 
 func TestC09_SkipDecoders(t *testing.T) {
 	rec := evid.New("C09", "c09_skipdecoders", "rapid: 1..10 struct values with strings of 0..70000 bytes decoded by SkipDecoder over a buffered reader (results retained until Release of the reader, across growths) and by ReaderSkipDecoder (result retained until the next Next), with pool cycling of the decoders and the co-tenant in between; non-trivial = a result retained while a later value > 4096 bytes forced a growth")
 	defer rec.Flush()
-	runRapid(t, rec, "c09_skip_tenant", evid.Pick(1500, 5000), genSkipTenantCase, checkSkipTenant)
+	runRapid(t, rec, "c09_skip_tenant", evid.Pick(1500, 12000), genSkipTenantCase, checkSkipTenant)
 }
